@@ -38,7 +38,7 @@ REQUIRED_PROBES = ("transport_calls", "cache_hit_after_success", "op_with_transp
                    "refetch_without_cache_remote", "metaschema_ref_resolved", "store_doc_resolved")
 
 OPS = ["is_valid", "exhaust", "validate", "take_close", "take_drop", "resolve", "resolving", "resolve_from_url",
-       "resolving", "in_scope"]
+       "resolving", "in_scope", "is_valid", "resolve", "resolve_remote", "resolve_fragment"]
 KINDS = ["lru", "pass", "tiny"]
 
 
@@ -97,6 +97,14 @@ def generate(rng, tier="quick"):
                 op["k"] = rng.choice([0, 1, 1, 2, 3])
         elif kind == "resolve_from_url":
             op["ref"] = rng.choice(absolute)
+        elif kind == "resolve_remote":
+            # the fetch primitive called directly: only documents that are legitimately remote
+            remote = [u for u in sorted(world["docs"]) if u not in world.get("store_docs", ())]
+            op["ref"] = rng.choice(remote + ["http://sim.test/root/missing.json"])
+        elif kind == "resolve_fragment":
+            op["doc"] = rng.choice(sorted(world["docs"]) + [""])
+            op["frag"] = rng.choice(["", "/definitions/n0", "/definitions", "/definitions/n1/items", "/nowhere",
+                                     "/definitions/n0/properties/a", "/definitions/n%300", "/definitions/~0"])
         elif kind == "in_scope":
             op["scope"] = rng.choice(["sub/", "http://sim.test/root/sub/", "#x"] + sorted(world["docs"]))
             op["ref"] = rng.choice(refs)
@@ -144,7 +152,10 @@ def execute(scn):
             failed = [w for w in window if w[2] in ("fail", "missing")]
             exc = out.get("exc") if out.get("k") in ("raised", "errors") else None
             # -- failure surface
-            if failed:
+            direct = op["op"] == "resolve_remote"     # always retrieves; raises whatever the route raised
+            if direct:
+                probe("direct_resolve_remote")
+            elif failed:
                 probe("op_with_transport_failure")
                 if not exc or not exc.get("rre"):
                     violations.append({"oracle": "failure-not-RefResolutionError", "where": i, "config": ci,
@@ -156,7 +167,9 @@ def execute(scn):
             for j, w in enumerate(window):
                 u = w[1]
                 if u in first_ok[ci]:
-                    if cfg["cache_remote"]:
+                    if direct:
+                        probe("direct_refetch")
+                    elif cfg["cache_remote"]:
                         violations.append({"oracle": "fetched-again-despite-cache_remote", "where": i, "config": ci,
                                            "op": op["op"], "detail": {"url": u, "route": w[0]}})
                     else:
